@@ -139,7 +139,8 @@ def run(tier: str, driver_ok: bool) -> Result:
         "random well-formed scenarios (1..9 bundles x 1..3 ZSKs x 1..3 KSKs; publish/sign/revoke = random subsets incl. revoked+signing, "
         "signing-not-published, repeated names; RSA 1024..4096 any fixture exponent, P-256/P-384; algorithms 8/10/13/14; hash on host/token; "
         "1..2 modules x 1..3 slots, refused-login slots, wrapped/bare EC points, private objects with/without point) + algorithm-mismatch "
-        "scenarios; non-trivial = distinct scenario description"
+        "scenarios; schema slots listed in ascending or shuffled order in the configuration; an error return / corrupted signature at the "
+        "k-th signing call of scenarios with >= 2 signing calls (a returned response must still be complete); non-trivial = distinct scenario description"
     )
     r = lib.rng("C02")
     n_ok = 90 if tier == "quick" else 900
@@ -152,9 +153,11 @@ def run(tier: str, driver_ok: bool) -> Result:
         x = S.run_sign(sc, what)
         x["case"] = {"what": what, "scenario": S.describe(sc)}
         x["what"] = what
+        x["sc"] = sc
         runs.append(x)
         res.count(x["case"])
         res.bump(f"alg:{sc.meta['alg']}")
+        res.bump(f"schema-listing:{sc.meta.get('listing', 'ascending')}")
         res.bump(f"bundles:{sc.meta['n']}")
         res.bump(what)
         impl = x["impl"]
@@ -170,6 +173,34 @@ def run(tier: str, driver_ok: bool) -> Result:
             res.violation("SKR content differs from what KSR and schema dictate", x["case"], key=bad[0].split(":")[0], broken=bad)
         if len(res.samples) < 2:
             res.sample({"case": x["case"], "impl_bundle_1": impl["ok"][0] if what == "sign_bundles" else impl["ok"]["bundles"][0], "token_ops": len(x["log"])})
+    # faulty token: an error return / a bad signature at a signing call.  The property knows no "partial" response:
+    # whatever the token does, a Response that IS returned carries exactly one signature per KSK listed under sign.
+    n_fault = 12 if tier == "quick" else 80
+    candidates = [x for x in runs if "ok" in x["impl"] and sum(1 for rec in x["log"] if rec["op"] == "sign") >= 2]
+    r.shuffle(candidates)
+    for x0 in candidates[:n_fault]:
+        sc0 = x0["sc"]
+        sign_pos = [i for i, rec in enumerate(x0["log"]) if rec["op"] == "sign"]
+        for pos in r.sample(sign_pos, min(3 if tier == "quick" else 6, len(sign_pos))):
+            for kind in ("error", "corrupt"):
+                sc0.plan = {pos: {"kind": kind, "pos": r.randrange(64), "bit": r.randrange(8)} if kind == "corrupt" else {"kind": kind}}
+                x = S.run_sign(sc0, x0["what"])
+                sc0.plan = {}
+                x["case"] = {"what": x0["what"], "scenario": x0["case"]["scenario"], "fault": {"position": pos, "kind": kind, "nth_sign": sign_pos.index(pos) + 1, "of": len(sign_pos)}}
+                x["what"] = x0["what"]
+                runs.append(x)
+                res.count(x["case"])
+                res.bump(f"sign-fault:{kind}")
+                if "ok" in x["impl"]:
+                    objs = x["objs"]
+                    bundles = objs if x0["what"] == "sign_bundles" else objs.bundles
+                    bad = skr_matches(sc0, x["req"], list(bundles))
+                    res.violation(
+                        "a signing call failed on the token but a response was returned" + (" whose content differs from what KSR and schema dictate" if bad else ""),
+                        x["case"],
+                        key="sign-fault:" + kind,
+                        broken=bad,
+                    )
     for i in range(n_bad):
         sc = mismatch_scenario(r)
         x = S.run_sign(sc, "sign_bundles")
